@@ -282,7 +282,7 @@ type c19Fault struct {
 	arg  int
 }
 
-var c19FaultNames = []string{"vanish", "truncate", "overwrite-garbage", "replace-by-dir", "overwrite-good"}
+var c19FaultNames = []string{"vanish", "truncate", "overwrite-garbage", "replace-by-dir", "overwrite-good", "directory-vanishes", "grow-by-appending"}
 
 type sliceSource struct {
 	items []*gtfs.Realtime
@@ -373,6 +373,30 @@ func (tee *c19Tee) applyFaults() {
 			}
 			e.data = nb
 			d.t.Logf("before Next#%d: %s %q (%d bytes)", tee.call, c19FaultNames[f.kind], e.name, len(nb))
+		case 5:
+			// the whole directory is renamed away: every entry not yet read has vanished
+			gone := d.dir + ".gone"
+			if err := os.Rename(d.dir, gone); err != nil {
+				continue
+			}
+			d.dir = gone // the model keeps operating on the renamed tree; the source still holds the old path
+			for _, o := range rest {
+				o.exists, o.isFile, o.data, o.modified = false, false, nil, false
+				o.note = c19FaultNames[5]
+			}
+			d.t.Logf("before Next#%d: the directory itself is renamed away (%d entries not yet read)", tee.call, len(rest))
+		case 6:
+			// the file grows after listing (a writer is still appending): an in-place modification
+			if !e.isFile || e.kind == kLinkToGood || len(tee.extraGen) == 0 {
+				continue
+			}
+			rememberPre()
+			nb := append(append([]byte(nil), e.data...), tee.extraGen[f.arg%len(tee.extraGen)]...)
+			if err := os.WriteFile(p, nb, 0o644); err != nil {
+				panic("harness: append: " + err.Error())
+			}
+			e.data = nb
+			d.t.Logf("before Next#%d: %q grows to %d bytes", tee.call, e.name, len(nb))
 		case 3:
 			os.RemoveAll(p)
 			if err := os.Mkdir(p, 0o755); err != nil {
@@ -1066,7 +1090,7 @@ func runC19(t *sim.T, tier string) *sim.Violation {
 		var psig strings.Builder
 		for i := 0; i < nf; i++ {
 			at := t.Choose(len(c.entries) + 1)
-			f := c19Fault{pick: t.Choose(16), kind: t.Weighted(4, 2, 2, 1, 1), arg: t.Choose(256)}
+			f := c19Fault{pick: t.Choose(16), kind: t.Weighted(8, 4, 4, 2, 2, 1, 2), arg: t.Choose(256)}
 			plan.faults[at] = append(plan.faults[at], f)
 			fmt.Fprintf(&psig, "%d:%d:%d:%d;", at, f.pick, f.kind, f.arg)
 		}
